@@ -35,6 +35,8 @@ pub trait Config: 'static {
     const CLONEABLE: bool = false;
     const RESIZABLE: bool = false;
     const RAWPARTS: bool = false;
+    /// the builder logs its own creation / clone / drop (stateful user builder)
+    const BUILDER_TRACKED: bool = false;
     fn clone_vec(_v: &AnyVec<Self::Tr, Self::M>) -> Option<AnyVec<Self::Tr, Self::M>> { None }
     /// reserve / reserve_exact / shrink_to_fit / shrink_to, erased or through the typed view; false = not offered by this backend
     fn cap_op(_v: &mut AnyVec<Self::Tr, Self::M>, _op: &str, _n: usize, _typed: bool) -> bool { false }
@@ -830,6 +832,21 @@ impl<C: Config> World<C> {
                 // n replacement items, the j-th of another type (each a correctly described raw value of its own type)
                 let n = usz(a, "n");
                 let j = usz(a, "j");
+                if a.get("src").and_then(|s| s.as_str()) == Some("wrapper") {
+                    // n statically typed values of the wrong type (the replacement iterator's item type is known at compile time)
+                    let mut items: Vec<AnyValueWrapper<X>> = { let _h = HarnessScope::new(); Vec::with_capacity(n) };
+                    items.push(AnyValueWrapper::new(val));
+                    for _ in 1..n {
+                        let idk = reg::fresh_id();
+                        if X::DROP { out.born.push(idk); } else { reg::mark_dead_silently(idk); }
+                        items.push(AnyValueWrapper::new(X::make(idk, 0)));
+                    }
+                    let v = self.v(x);
+                    let r = catch_unwind(AssertUnwindSafe(|| { let sp = v.splice(usz(a, "s")..usz(a, "e"), items); drop(sp); }));
+                    if let Err(p) = r { std::panic::resume_unwind(p); }
+                    out.note.push("wrong_type_admitted".to_string());
+                    return;
+                }
                 let mut good: Vec<ManuallyDrop<C::E>> = { let _h = HarnessScope::new(); Vec::with_capacity(n) };
                 let mut items: Vec<AnyValueRaw> = { let _h = HarnessScope::new(); Vec::with_capacity(n) };
                 let bad = ManuallyDrop::new(val);
